@@ -25,3 +25,25 @@ class BoomCdf:
         raise RuntimeError('BoomCdf: no cdf')
 
     cumulative_distribution = cdf
+
+
+class Flaky:
+    """A distribution that cannot be fitted to data containing negative values and otherwise behaves like a Gaussian
+    (delegation, not inheritance: it must not become a Univariate subclass)."""
+
+    def __init__(self, *a, **k):
+        from copulas.univariate import GaussianUnivariate
+        self._inner = GaussianUnivariate()
+        self.fitted = False
+
+    def fit(self, X):
+        import numpy as np
+        if np.min(X) < 0:
+            raise ValueError('Flaky: negative data')
+        self._inner.fit(X)
+        self.fitted = True
+
+    def __getattr__(self, name):
+        if name.startswith('__') or name == '_inner':
+            raise AttributeError(name)
+        return getattr(self._inner, name)
